@@ -48,6 +48,7 @@ type offer struct {
 	TrueRef  string // ref of the true blob this offer was derived from
 	Boundary string // 16 MiB boundary label, if any
 	TermErr  error  // term / term-withdata readers: what the source reports instead of io.EOF after all of Data
+	UH       string // unknown-hash offers: how the digest of the ref relates to the offered bytes
 }
 
 type trueBlob struct {
@@ -234,7 +235,68 @@ func unknownHashOffers(rng *rand.Rand) []*offer {
 		if rng.Intn(4) == 0 {
 			data = nil
 		}
-		out = append(out, &offer{Ref: ref, RefStr: s, Data: data, Mut: "unknown-hash", Arg: s[:strings.IndexByte(s, '-')], Want: wantReject})
+		out = append(out, &offer{Ref: ref, RefStr: s, Data: data, Mut: "unknown-hash", Arg: s[:strings.IndexByte(s, '-')], Want: wantReject, UH: "arbitrary-digest"})
+	}
+	return out
+}
+
+// unknownMatchNames: hash names perkeep has no function for.  Several look like a supported name or
+// name a function whose digest is as long as one perkeep knows (ripemd160: 20 bytes like sha1;
+// sha3 / blake2s: 28 or 32 bytes like sha224 / sha256).
+var unknownMatchNames = []string{"blake2b", "sha512", "md5", "sha3", "sha225", "sha2", "foo", "sha224x", "sha0", "ripemd160", "sha384", "blake2s", "xsha256", "sha"}
+
+// unknownRefOf is the ref "<name>-<hex digest of data under the SUPPORTED function digestOf>".
+func unknownRefOf(name, digestOf string, data []byte) (blob.Ref, string, bool) {
+	s := name + "-" + sto.RefOf(digestOf, data).Digest()
+	ref, ok := blob.Parse(s)
+	if ok && ref.IsSupported() {
+		ok = false
+	}
+	return ref, s, ok
+}
+
+// unknownMatchingOffers: refs of unknown hash names whose digest is EXACTLY what one of the supported
+// functions (sha1, sha224, sha256) yields for the offered bytes.  "Bytes hash to that blobref under
+// the ref's own hash function" cannot hold for a function perkeep does not have: the offer must be
+// refused (unsupported hash) whatever its digest looks like.  A digest comparison that is done with
+// some fall-back function finds these equal, while an arbitrary digest never would be.
+// perName: how many names are tried per digest function.
+func unknownMatchingOffers(rng *rand.Rand, perName int) []*offer {
+	var out []*offer
+	sizes := []int{0, 1, 33, 300, 5000, 70000}
+	for hi, h := range hashNames {
+		perm := rng.Perm(len(unknownMatchNames))
+		for k := 0; k < perName && k < len(perm); k++ {
+			name := unknownMatchNames[perm[k]]
+			if hi == 0 && k == 0 {
+				name = "blake2b"
+			}
+			data := make([]byte, sizes[rng.Intn(len(sizes))])
+			rng.Read(data)
+			ref, s, ok := unknownRefOf(name, h, data)
+			if !ok {
+				continue
+			}
+			out = append(out, &offer{Ref: ref, RefStr: s, Data: data, Mut: "unknown-hash", Arg: fmt.Sprintf("%s, digest = %s of the %d offered bytes", name, h, len(data)),
+				Want: wantReject, UH: "digest-is-" + h + "-of-bytes"})
+		}
+	}
+	return out
+}
+
+// unknownAliasOffers: the bytes of the true blob tb under refs that only replace the hash NAME of
+// tb's ref by an unknown one (same digest).
+func unknownAliasOffers(rng *rand.Rand, tb trueBlob, n int) []*offer {
+	var out []*offer
+	perm := rng.Perm(len(unknownMatchNames))
+	for k := 0; k < n && k < len(perm); k++ {
+		name := unknownMatchNames[perm[k]]
+		ref, s, ok := unknownRefOf(name, tb.Hash, tb.Data)
+		if !ok {
+			continue
+		}
+		out = append(out, &offer{Ref: ref, RefStr: s, Data: tb.Data, Mut: "unknown-hash", Arg: fmt.Sprintf("%s, digest of the true %s blob %s", name, tb.Hash, tb.Ref),
+			Want: wantReject, UH: "digest-is-" + tb.Hash + "-of-bytes", TrueRef: tb.Ref.String()})
 	}
 	return out
 }
